@@ -15,7 +15,8 @@ def sh(cmd, cwd=None, timeout=900):
     return p.returncode, p.stdout + p.stderr
 
 def clean():
-    sh("git checkout -q -- . && git clean -fdq -- '*_seeddemo_test.go'", REPO)
+    # patches may add files: remove everything untracked, not only the demonstration
+    sh("git checkout -q -- . && git clean -fdq", REPO)
     for f in glob.glob(REPO + "/**/zz_seeddemo_test.go", recursive=True):
         os.remove(f)
 
